@@ -129,6 +129,16 @@ def main(tier, seed):
     for _ in range(300 if quick else 5000):
         o = rng.choice(ymd_days if rng.random() < .8 else rnd)
         tasks.append(("dseq", (bindir, o, rng.choice([1, 1, 1, 2, 3, 5, 12, 13]), rng.randrange(2, 60))))
+    # the same steps with the result printed in ANOTHER calendar: the lazy
+    # clamp must have happened before any conversion
+    XO = {"ymd": ["ywd", "yd", "ymcw", "ldn"], "ymcw": ["ymd", "ywd"], "bizda": ["ymd"], "ywd": ["ymd", "yd"],
+          "yd": ["ymd", "ywd"]}
+    cross = []
+    for i, t in enumerate(tasks):
+        if t[0] == "add":
+            outs = XO[t[1][2]]
+            cross.append(("add", t[1] + (outs[i % len(outs)],)))
+    tasks += cross
     tasks = [t for t in tasks if t[0] == "dseq" or t[1][4]]
     tasks.sort(key=lambda t: -(len(t[1][4]) if t[0] == "add" else 50))
     for sh in core.pmap(_dispatch, tasks):
